@@ -226,6 +226,8 @@ pub fn run(tier: Tier, seed: u64) -> i32 {
     ev.floor("adversarial assignments", ev.bucket_get("adversarial"), tier.pick(5000, 50000));
     ev.floor("adversarial assignments unsatisfied", ev.bucket_get("adversarial.unsatisfied"), tier.pick(4000, 40000));
     ev.floor("end-to-end", ev.bucket_get("end_to_end"), 10);
+    ev.floor("near-miss assignments (one sub-identity on one row) refused by the real prover", ev.bucket_get("near_miss.end_to_end"), 50);
+    ev.floor("sub-identities covered by near misses", ev.set_len("near_miss_identities") as u64, 2);
     ev.finish()
 }
 
